@@ -17,7 +17,9 @@
                   by leaseholder (gossip.go) - volatile.
      status[n]    "up" | "down" | "rec" (inside Open, running start-up recovery;
                   transport handlers are already bound), pend[n] peers still to
-                  recover from.
+                  recover from, hwsnap[n] the high-water mark loaded when Open started.
+     pendw[n]     an open aspen transaction (tx.Set/Delete done = lease allocated from
+                  the digest read at that moment, tx.Commit not yet called).
    net            bag of messages [t, from, to, ops]:
                   "sync"  operationClient.send -> operationServer.handle request,
                   "ack"   the response of that call (the callee's infected operations),
@@ -27,6 +29,8 @@
                   LocalWrite as an atomic remote write (no "lease" message in flight).
 
    Actions <-> code
+     TxSet / TxCommit     the two halves of LocalWrite when a caller holds a transaction
+                          open (explored only with "MultiLease" un-masked).
      LocalWrite(n,k,var)  DB.Set / DB.Delete: leaseAllocator.allocate (first writer of a
                           key becomes leaseholder, leases are not transferable), then
                           leaseProxy -> versionAssigner (counter+1) -> persist (writes
